@@ -17,7 +17,7 @@ let () =
     let spec rule cond detail = if not cond then fails := Specfail (rule, detail) :: !fails in
     (* model, float instance with binary32 rounding after every operation *)
     let m = RegretMatching.policy_vector 0.0 (fun a b -> r32 (a +. b)) (fun a b -> r32 (a /. b)) (fun a b -> a <= b) (fun a b -> a < b)
-        (fun z -> float_of_int (int_of_z z)) f32_min_positive (z_of_int t) regs in
+        (fun z -> r32 (float_of_int (int_of_z z))) f32_min_positive (z_of_int t) regs in
     (match m, o.(0) with
      | None, "P" -> ()
      | None, _ -> fails := Mismatch "model aborts" :: !fails
@@ -37,7 +37,7 @@ let () =
       if guard then begin
         let s = Stdlib.List.fold_left ( +. ) 0.0 ip in
         spec "c09_probabilities_sum_to_one" (Float.abs (s -. 1.0) <= 1e-5) (Printf.sprintf "sum %.8f" s);
-        let div = float_of_int (max t 1) in
+        let div = r32 (float_of_int (max t 1)) in
         let pos = Stdlib.List.map (fun r -> Float.max (r /. div) 0.0) regs in
         let sp = Stdlib.List.fold_left ( +. ) 0.0 pos in
         if sp > 1e-20 then
@@ -67,6 +67,34 @@ let () =
      | None -> Hashtbl.replace seen key o.(0));
     !fails);
   at_finish (fun () -> Stdlib.List.map (fun c -> Specfail ("c20_same_epoch_and_infoset_same_branch", c)) !conflicts);
+  (* nodes of one information set (same Bucket) below the recalled depth: same PRNG stream, same branch *)
+  register "seedfn" (fun i o ->
+    if o.(0) = "P" then [Specfail ("c20_sampler_aborts", "hand-built deep line")] else begin
+    let seeds = split ',' o.(0) and edges = split ',' o.(1) in
+    let same l = match l with [] -> true | x :: r -> Stdlib.List.for_all (fun y -> y = x) r in
+    (if same seeds then [] else
+       [Specfail ("c20_seed_is_a_function_of_epoch_and_infoset",
+                  Printf.sprintf "epoch %s, information set %s, nodes at depths %s: PRNG streams start %s" i.(1) i.(2) i.(3) o.(0))])
+    @ (if same edges then [] else
+         [Specfail ("c20_same_epoch_and_infoset_same_branch",
+                    Printf.sprintf "epoch %s, information set %s, nodes at depths %s: sampled %s" i.(1) i.(2) i.(3) o.(1))]) end);
+  (* a chance node offered 12 deals: one answer per epoch, and not the same answer at all 24 epochs *)
+  (let per_node : (string, string list) Hashtbl.t = Hashtbl.create 16 in
+   register "anychoice" (fun i o ->
+     let answers = split ',' o.(0) in
+     let prev = match Hashtbl.find_opt per_node i.(1) with Some l -> l | None -> [] in
+     (match answers with a :: _ -> Hashtbl.replace per_node i.(1) (a :: prev) | [] -> ());
+     (if Stdlib.List.exists (fun x -> x = "P" || x = "?") answers then [Specfail ("c20_sampler_aborts", "chance node " ^ i.(1))] else [])
+     @ (match answers with
+        | a :: r when Stdlib.List.exists (fun y -> y <> a) r ->
+          [Specfail ("c20_same_question_same_answer", Printf.sprintf "chance node %s, epoch %s, information set %s: 20 calls on 4 threads picked deals %s" i.(1) i.(2) i.(3) o.(0))]
+        | _ -> []));
+   at_finish (fun () ->
+     Hashtbl.fold (fun k l acc ->
+       match l with
+       | a :: r when Stdlib.List.length l >= 24 && Stdlib.List.for_all (fun y -> y = a) r ->
+         Specfail ("c20_choice_varies_across_epochs", Printf.sprintf "chance node %s: deal %s at every one of %d epochs" k a (Stdlib.List.length l)) :: acc
+       | _ -> acc) per_node []));
   register "sampchance" (fun _ o -> if o.(0) = "1" then [] else [Specfail ("c20_chance_one_branch", o.(0))]);
   (* across epochs the choice follows the profile's weights (chi-square, 6.5 sigma) *)
   register "sampdist" (fun i o ->
